@@ -22,6 +22,14 @@ RULE = ("direct: (a) exhaustive incidence structures of <= 3 (quick) / <= 4 (tho
         "(nested paired-end 'onion' layers around a centre block) so that the only read linking two groups of variants exceeds the "
         "cap and is dropped by read selection, several junctions per chromosome, link on the left / right / both sides, control "
         "junctions whose link read is kept; the oracle is the connectivity of exactly the reads in the trace = read list. "
+        "The direct streams also draw: empty / one-element phased_positions, up to 40 positions, genome-scale coordinates, numeric sample "
+        "ids up to 5000, unsorted master blocks, empty het sets, a second call on the same ReadSet object, family sizes 1-4 with numeric "
+        "ids in any order for compute_overall_components; any exception other than the modelled classes is a violation. " +
+        "Every CLI run additionally draws: sample names (random pool incl. names sorting against their role, role names swapped, shared "
+        "prefixes), VCF column order, 1-3 read groups per sample (ids = sample / opaque / looking like another sample), 1-2 BAM files, "
+        "an extra unrelated sample next to a pedigree family, quartets, two unrelated samples without --ped, and the options "
+        "--merge-reads, --only-snvs, --no-reference, --sample, --chromosome, --ignore-read-groups, an input VCF that already carries "
+        "phasing; any non-zero exit of whatshap phase is a violation with the spec as replay. "
         "non-trivial = at least two classes or a class with >= 3 members that is not an interval of positions "
         "(interleaved / nested) or a master block merge; distinct = distinct input structure.")
 TRUSTED = [
@@ -113,13 +121,19 @@ def call_guarded(f):
         return ("err", "KeyError")
     except AssertionError:
         return ("err", "AssertionError")
+    except Exception as e:                      # any other exception is recorded as an output, never a harness error
+        return ("exc", f"{type(e).__name__}: {e}")
 
 
 def run_fc(case):
     from whatshap.cli.phase import find_components
     P, reads, mb, het = case["P"], case["reads"], case["mb"], case["het"]
     hetd = None if het is None else {s: set(ps) for s, ps in het}
-    return call_guarded(lambda: find_components(list(P), build_readset(reads), None if mb is None else list(mb), hetd))
+    rs = build_readset(reads)
+    if case.get("repeat"):
+        # history: the same ReadSet object (and het dict) was already used for an earlier call
+        call_guarded(lambda: find_components(list(P), rs, None if mb is None else list(mb), hetd))
+    return call_guarded(lambda: find_components(list(P), rs, None if mb is None else list(mb), hetd))
 
 
 def fc_term(case, res):
@@ -131,7 +145,7 @@ def fc_term(case, res):
     mb = None if case["mb"] is None else rk.many(case["mb"])
     het = None if case["het"] is None else [(s, rk.many(ps)) for s, ps in case["het"]]
     r = res if res[0] == "err" else ("ok", [(rk(a), rk(b)) for a, b in res[1]])
-    return f"({nl(P)}, {reads_t(reads)}, {optl(mb)}, {het_t(het)}, {res_t(r)})"
+    return f"(({nl(P)} : list nat), ({reads_t(reads)} : list cread), {optl(mb)}, {het_t(het)}, {res_t(r)})"
 
 
 FC_PROJ = "let '(P, reads, mb, het, res) := c in "
@@ -223,22 +237,32 @@ def gen_reads(rng, U, nreads):
 
 def gen_fc_random(rng, count):
     for _ in range(count):
-        nv = rng.randint(2, 14)
-        U = sorted(rng.sample(range(1, 3000), nv))
-        P = sorted(p for p in U if rng.random() < 0.8) or [U[0]]
+        nv = rng.randint(2, 14) if rng.random() < 0.9 else rng.randint(15, 40)
+        U = sorted(rng.sample(range(0, rng.choice([3000, 3000, 250000000])), nv))
+        r = rng.random()
+        P = [] if r < 0.03 else [rng.choice(U)] if r < 0.08 else (sorted(p for p in U if rng.random() < 0.8) or [U[0]])
         reads = gen_reads(rng, U, rng.choice([0, 1, 2, 3, 5, 8, 14]))
+        if rng.random() < 0.15:
+            remap = {0: rng.randint(3, 50), 1: rng.randint(51, 100), 2: rng.randint(101, 5000)}
+            reads = [(remap[s], ps) for s, ps in reads]
+        sids = sorted({s for s, _ in reads}) or [0]
         mb = None
         if rng.random() < 0.4:
-            mb = sorted(rng.sample(P, rng.randint(0, min(4, len(P)))))
+            mb = rng.sample(P, rng.randint(0, min(4, len(P))))
+            if rng.random() < 0.7:
+                mb = sorted(mb)
         het = None
         if rng.random() < 0.4:
-            het = [(s, sorted(p for p in U if rng.random() < 0.7)) for s in (0, 1, 2)]
-        yield {"P": P, "reads": reads, "mb": mb, "het": het}
+            het = [(s, sorted(p for p in U if rng.random() < rng.choice([0.0, 0.7, 0.7, 1.0]))) for s in sids]
+        yield {"P": P, "reads": reads, "mb": mb, "het": het, "repeat": rng.random() < 0.1}
 
 
 def gen_fc_malformed(rng, count):
     for _ in range(count):
         base = next(gen_fc_random(rng, 1))
+        while len(base["P"]) < 2:
+            base = next(gen_fc_random(rng, 1))
+        base["repeat"] = False
         kind = rng.choice(["unsorted", "dupfirst", "mb_outside", "mb_dup", "het_missing", "dupP"])
         c = dict(base)
         if kind == "unsorted" and len(c["P"]) >= 2:
@@ -247,11 +271,12 @@ def gen_fc_malformed(rng, count):
             p = rng.choice(c["P"])
             c["reads"] = c["reads"] + [(0, [p, p] + c["P"][:1])]
         elif kind == "mb_outside":
-            c["mb"] = [c["P"][0], 3001 + rng.randint(0, 5)]
+            c["mb"] = [c["P"][0], max(c["P"]) + 1 + rng.randint(0, 5)]
         elif kind == "mb_dup":
             c["mb"] = [c["P"][0], c["P"][0]]
         elif kind == "het_missing":
-            c["het"] = [(0, list(c["P"]))]
+            c["het"] = [(6000, list(c["P"]))]
+            c["reads"] = c["reads"] + [(0, list(c["P"][:2]))]
         else:
             c["P"] = sorted(c["P"] + c["P"][:2])
         c["kind"] = kind
@@ -262,11 +287,38 @@ def check_fc(ctx, cases, label):
     terms, raw = [], []
     for case in cases:
         res = run_fc(case)
-        raw.append((case, res))
-        terms.append(fc_term(case, res))
         ctx.count(("fc", repr(case)), nontrivial=fc_nontrivial(case, res))
         ctx.tally(f"fc.{label}")
+        if res[0] == "exc":
+            if case.get("kind"):
+                ctx.l2_disagreement("find_components exception class on malformed input", [{"case": case, "impl": res}])
+            else:
+                ctx.violation("components:exception", f"find_components raised {res[1]} on well-formed input {case}",
+                              {"kind": "fc", "case": case})
+            continue
+        raw.append((case, res))
+        terms.append(fc_term(case, res))
         ctx.tally("fc.err" if res[0] == "err" else "fc.ok")
+        ctx.tally("fc.P_size=" + ("0" if not case["P"] else "1" if len(case["P"]) == 1 else "2" if len(case["P"]) == 2 else "many"))
+        ctx.tally("fc.reads=" + ("0" if not case["reads"] else "1" if len(case["reads"]) == 1 else "many"))
+        if case.get("repeat"):
+            ctx.tally("fc.second_call_on_same_readset")
+        if case["mb"] is not None:
+            ctx.tally("fc.mb_size=" + (str(len(case["mb"])) if len(case["mb"]) < 3 else "3+"))
+            if case["mb"] != sorted(case["mb"]):
+                ctx.tally("fc.mb_unsorted")
+        if any(ps != sorted(ps) for _, ps in case["reads"]):
+            ctx.tally("fc.unsorted_read_present")
+        if any(sid > 2 for sid, _ in case["reads"]):
+            ctx.tally("fc.large_sample_ids")
+        if res[0] == "ok":
+            classes = {}
+            for p, c in res[1]:
+                classes.setdefault(c, []).append(p)
+            keys = [p for p, _ in res[1]]
+            ctx.tally("fc.classes=" + ("1" if len(classes) == 1 else "2" if len(classes) == 2 else "many" if classes else "0"))
+            if any(len(v) >= 2 and [k for k in keys if v[0] <= k <= v[-1]] != v for v in classes.values()):
+                ctx.tally("fc.interleaved_or_nested_class")
         if case["mb"] is not None:
             ctx.tally("fc.with_master_block")
         if case["het"] is not None:
@@ -287,10 +339,13 @@ def run_coc(case):
     from whatshap.cli.phase import compute_overall_components
     ids = NumericSampleIds()
     fam = [f"s{i}" for i in range(case["family_size"])]
-    for s in fam:
-        ids[s]
+    # register names so that fam[i] gets numeric id case["ids"][i] (other samples of the run occupy the remaining ids)
+    want = case["ids"]
+    for n in range(max(want) + 1):
+        ids[fam[want.index(n)] if n in want else f"other{n}"]
+    assert [ids[s] for s in fam] == want
     srl = []
-    for i, cols in enumerate(case["superreads"]):
+    for i, cols in zip(want, case["superreads"]):
         a, b = Read("sr0", 0, 0, i), Read("sr1", 0, 0, i)
         for p, x, y in cols:
             a.add_variant(p, x, 30)
@@ -308,12 +363,12 @@ def coc_term(case, res):
     allv = list(case["acc"]) + [p for _, ps in case["reads"] for p in ps] + list(case["hom"]) + \
         [c[0] for cols in case["superreads"] for c in cols]
     rk = Ranker(allv)
-    sr = "[" + "; ".join(f"({i}, [" + "; ".join(f"({rk(p)}, {x}, {y})" for p, x, y in cols) + "])"
-                         for i, cols in enumerate(case["superreads"])) + "]"
+    sr = "([" + "; ".join(f"({i}, [" + "; ".join(f"({rk(p)}, {x}, {y})" for p, x, y in cols) + "])"
+                          for i, cols in zip(case["ids"], case["superreads"])) + "] : list (nat * list srcol))"
     r = res if res[0] == "err" else ("ok", [(rk(a), rk(b)) for a, b in res[1]])
     reads = [(s, rk.many(ps)) for s, ps in case["reads"]]
-    return (f"({nl(rk.many(case['acc']))}, {reads_t(reads)}, {'true' if case['distrust'] else 'false'}, {case['family_size']}, "
-            f"{'true' if case['genetic'] else 'false'}, {nl(rk.many(case['hom']))}, {sr}, {res_t(r)})")
+    return (f"(({nl(rk.many(case['acc']))} : list nat), ({reads_t(reads)} : list cread), {'true' if case['distrust'] else 'false'}, "
+            f"{case['family_size']}, {'true' if case['genetic'] else 'false'}, ({nl(rk.many(case['hom']))} : list nat), {sr}, {res_t(r)})")
 
 
 COC_CHECKS = {
@@ -327,21 +382,28 @@ def gen_coc_random(rng, count):
         nv = rng.randint(2, 12)
         U = sorted(rng.sample(range(1, 3000), nv))
         acc = sorted(p for p in U if rng.random() < 0.85) or [U[0]]
-        fam = rng.choice([1, 3])
-        reads = [(s % fam, ps) for s, ps in gen_reads(rng, U, rng.choice([0, 1, 2, 4, 8, 12]))]
+        fam = rng.choice([1, 1, 2, 3, 3, 4])
+        ids = rng.sample(range(0, rng.choice([fam, fam + 3, 12])), fam)          # numeric sample ids of the members, any order
+        reads = [(ids[s % fam], ps) for s, ps in gen_reads(rng, U, rng.choice([0, 1, 2, 4, 8, 12]))]
         sr = []
         for _ in range(fam):
             sr.append([(p, *rng.choice([(0, 1), (1, 0), (0, 0), (1, 1), (3, 3), (0, 3)])) for p in U if rng.random() < 0.9])
         yield {"acc": acc, "reads": reads, "distrust": rng.random() < 0.5, "family_size": fam,
-               "genetic": rng.random() < 0.6, "hom": sorted(p for p in U if rng.random() < 0.3), "superreads": sr}
+               "genetic": rng.random() < 0.6, "hom": sorted(p for p in U if rng.random() < 0.3), "superreads": sr, "ids": ids}
 
 
 def check_coc(ctx, cases, label):
     terms, raw = [], []
     for case in cases:
         res = run_coc(case)
+        if res[0] == "exc":
+            ctx.count(("coc", repr(case)), nontrivial=True)
+            ctx.violation("components:exception", f"compute_overall_components raised {res[1]} on {case}", {"kind": "coc", "case": case})
+            continue
         raw.append((case, res))
         terms.append(coc_term(case, res))
+        if case["ids"] != list(range(case["family_size"])):
+            ctx.tally("coc.numeric_ids_not_in_family_order")
         ctx.count(("coc", repr(case)), nontrivial=res[0] == "ok" and len({c for _, c in res[1]}) >= 2)
         ctx.tally(f"coc.{label}")
         ctx.tally("coc.distrust" if case["distrust"] else "coc.trust")
@@ -434,10 +496,20 @@ def check_cli(ctx, specs, label):
         results = list(ex.map(one, enumerate(specs)))
     terms, owners = [], []
     for spec, res in zip(specs, results):
+        phase_cli.tally_variation(ctx, spec, "cli" if not spec.get("junctions") else "jn")
         if res["rc"] != 0:
-            ctx.violation("components:cli-crash", f"whatshap phase failed (rc={res['rc']}) on synthetic input {spec}: "
-                          + res["stderr"][-400:], {"kind": "cli", "spec": spec})
+            ctx.count(("cli", repr(spec)), nontrivial=True)
+            sig, why = phase_cli.classify_crash(spec, res, "components:cli-crash")
+            ctx.violation(sig, f"{why} (rc={res['rc']}) on synthetic input {spec}: " + res["stderr"][-400:],
+                          {"kind": "cli", "spec": spec})
             continue
+        if not (spec.get("var") or {}).get("prephased"):
+            covered = {(rec["chromosome"], smp) for rec in res["trace"] for smp in rec["family"]}
+            stray = [(c, p, smp) for (c, p, smp), d in res["calls"].items()
+                     if (c, smp) not in covered and (d["phased"] or d["PS"] is not None or d["HP"] is not None)]
+            if stray:
+                ctx.violation("components:phased-outside", f"phase information written for chromosome/sample pairs that were not "
+                              f"phased in this run: {stray[:5]} ({spec})", {"kind": "cli", "spec": spec})
         n_reads = sum(len(r["reads"]) for r in res["trace"])
         if n_reads != len(res["readlist"]):
             ctx.violation("components:readlist-rows", f"read list has {len(res['readlist'])} rows but {n_reads} reads were handed "
@@ -531,7 +603,7 @@ def run(ctx):
             if cand:
                 check_fc(ctx, cand, "search")
     specs = []
-    for i in range(ctx.n(30, 240)):
+    for i in range(ctx.n(60, 240)):
         specs.append(phase_cli.make_spec(rng, trio=(i % 2 == 0), tag=("PS" if i % 4 < 2 else "HP"), low_cov_gaps=(i % 5 != 0),
                                          k=rng.choice([4, 6, 8, 15]), depth_reads=rng.randint(15, 60)))
     check_cli(ctx, specs, "cli")
@@ -561,6 +633,8 @@ def gen_junction_specs(ctx):
 def replay(ctx, data):
     if data.get("kind") == "fc":
         check_fc(ctx, [data["case"]], "replay")
+    elif data.get("kind") == "coc":
+        check_coc(ctx, [data["case"]], "replay")
     elif data.get("kind") == "cli":
         check_cli(ctx, [data["spec"]], "replay")
     else:
